@@ -692,14 +692,24 @@ def continue_refines_partial : Prop :=
     C07.continueInLoops b = true → noRepeatB false b = true →
     runProgram ρ n externs (RemoveContinue.apply b) = runProgram ρ n externs b
 
-/-- `remove_types` as a whole. Every hook is locally sound (below): the expression hook and the block
+/-- **`remove_types` as a whole** preserves the observable outcome (returned values, raised error,
+external-call trace) of EVERY program. Every hook is locally sound: the expression hook and the block
 hook are exact, the statement / function hooks yield statements related by the stage-2 congruence
-(closures that differ in annotations only). What keeps the whole-rule theorem a `def … : Prop`: the
-PREFIX hook turns `p<<T>>` (one value) into `p` (possibly several values) — equal where a prefix is
-used (only the first value is), but not an exact step of `Sem.R`, which has no "first value" relation. -/
-def types_refines : Prop :=
-  ∀ (b : Block) (N : NumOps) (ρ : ExtOracle N) (n : Nat) (externs : List String), wfB b = true →
-    runProgram ρ n externs (RemoveTypes.apply b) = runProgram ρ n externs b
+(closures that differ in annotations only), and the PREFIX hook — `p<<T>>` (one value) becomes `p`
+(possibly several values) — preserves the first value, which is all a prefix position uses. The last
+point is outside the plain lifting theorem (one relation for values and prefixes); the proof goes through
+the prefix-aware variant `C06/LiftOn.lean` (`visit_rel_on` with `firstFam`). -/
+theorem rule_refines_remove_types (b : Block) (ρ : ExtOracle N) (n : Nat) (externs : List String) :
+    runProgram ρ n externs (RemoveTypes.apply b) = runProgram ρ n externs b :=
+  remove_types_refines_lift b ρ n externs
+
+/-- non-vacuity: `f<<T>>((g() :: T))` — the prefix loses its instantiation, the cast of a call becomes
+parentheses, the type declaration disappears -/
+example : RemoveTypes.apply
+    (.mk [.typeDecl false "T" (.mk "number" []),
+          .callStmt (.call (.inst (.var "f") [.mk "T" []]) none .tuple
+            [.cast (.call (.var "g") none .tuple []) (.mk "T" [])])] none) =
+    .mk [.callStmt (.call (.var "f") none .tuple [.paren (.call (.var "g") none .tuple [])])] none := rfl
 
 /-- `remove_types`, expression hook: unwrapping casts / instantiations (with parentheses around what may
 return several values) is exact. -/
